@@ -3,8 +3,8 @@
    preserves the side conditions, the n-ary left fold is an upper bound of every operand and a fixed
    point of a second pass; the Python-level replication laws are decided by the correspondence/oracle
    run (DESIGN §7 C09). *)
-From OptreeModel Require Import Base Tree Flatten Unflatten Spec Ops JoinArr.
-From OptreeProofs Require Import SpecProofs OrderProofs PrefixOrder JoinOrder JoinLeast FlattenGood PrefixAntisym JoinFold JoinArrProofs.
+From OptreeModel Require Import Base Tree Flatten Unflatten Spec Construct Ops JoinArr.
+From OptreeProofs Require Import SpecProofs OrderProofs PrefixOrder JoinOrder JoinLeast FlattenGood PrefixAntisym JoinFold JoinArrProofs Subst BroadcastProofs.
 
 (* a leaf is replaced by the other operand's subtree, whichever side it is on *)
 Theorem C09_join_leaf_l : forall b, st_join st_leaf b = Ok b.
@@ -141,6 +141,28 @@ Theorem C09_join_preserves_counters :
   forall a b j, wf_stree a = true -> wf_stree b = true -> st_join a b = Ok j -> wf_stree j = true.
 Proof. exact join_wf. Qed.
 Print Assumptions C09_join_preserves_counters.
+
+(* REPLICATION. tree_broadcast_prefix(prefix, full) — when flatten_up_to of the prefix's treespec
+   succeeds on the full tree and the subtrees found there flatten — returns a well-formed tree r such
+   that: r is the prefix's treespec unflattened with "the subtree at that leaf's path with every leaf
+   replaced by the prefix leaf"; flattening r gives every prefix leaf repeated once per leaf of its
+   subtree, in order (what broadcast_prefix returns), and r's treespec is the prefix's treespec with
+   every leaf replaced by the treespec of the subtree at its path (the full tree's structure, with the
+   prefix's own node types and key order above). No predicate; every configuration otherwise. *)
+Theorem C09_tree_broadcast_prefix_replicates :
+  forall c p full lsp spp s subs rs,
+    c_pred c = None -> wf_obj p = true -> wf_obj full = true ->
+    flatten c p = Ok (lsp, spp) -> sspec_of spp = Some s ->
+    ss_flatten_up_to (c_reg c) s full = Ok subs ->
+    Forall2 (fun sub r => flatten c sub = Ok r) subs rs ->
+    exists r t t' b,
+      tree_broadcast_prefix c p full = Ok r /\ wf_obj r = true /\
+      decode (trav spp) = Some t /\
+      Subst t (map (fun q => match decode (trav (snd q)) with Some u => u | None => st_leaf end) rs) t' /\
+      tflat c (S (c_limit c) + S (c_limit c)) r =
+        Ok (concat (map (fun xq => repeat (fst xq) (length (fst (snd xq)))) (combine lsp rs)), t', b).
+Proof. exact tree_broadcast_prefix_spec. Qed.
+Print Assumptions C09_tree_broadcast_prefix_replicates.
 
 Example C09_example :
   let c := {| c_nil := false; c_ns := 1; c_pred := None;
